@@ -345,6 +345,10 @@ VARIANTS["C03"] = [v if v.name != "sync-cut-differently" else V("twin-sync-cut-e
 
 # ------------------------------------------------------------------------------------------------ C12
 VARIANTS["C12"] = [
+    V("window-lookahead-carried-chunk", "fire", NP, [('        for first, last in wg.firstlast:\n            first = first + offset\n            last = last + offset\n\n            chunk_lf = self.extract_lfp(self.sr[first:last, : self.napch].T)\n            chunk_lf_sync = self.extract_lfp_sync(\n                self.sr[first:last, self.idxsyncch:].T\n            )\n\n            chunk_lf2save = self._ind2save(\n                chunk_lf, chunk_lf_sync, wg, ratio=self.ratio, etype="lf"\n            )\n\n            self._split2shanks(chunk_lf2save, etype="lf")\n', '        pending = None\n        for first, last in wg.firstlast:\n            ahead = self.sr[first + offset:last + offset, :].T\n            if pending is not None:\n                chunk_lf2save = self._ind2save(\n                    self.extract_lfp(pending[: self.napch]), self.extract_lfp_sync(pending[self.idxsyncch:]), wg, ratio=self.ratio, etype="lf"\n                )\n                self._split2shanks(chunk_lf2save, etype="lf")\n            pending = ahead\n        chunk_lf2save = self._ind2save(\n            self.extract_lfp(pending[: self.napch]), self.extract_lfp_sync(pending[self.idxsyncch:]), wg, ratio=self.ratio, etype="lf"\n        )\n        self._split2shanks(chunk_lf2save, etype="lf")\n')], ("D5",),
+      "each window is saved one iteration late: wg.iw is one ahead of the data when _ind2save trims it"),
+    V("twin-window-generator-helper", "twin", NP, [('        for first, last in wg.firstlast:\n            first = first + offset\n            last = last + offset\n\n            chunk_lf = self.extract_lfp(self.sr[first:last, : self.napch].T)\n            chunk_lf_sync = self.extract_lfp_sync(\n                self.sr[first:last, self.idxsyncch:].T\n            )\n\n            chunk_lf2save = self._ind2save(\n                chunk_lf, chunk_lf_sync, wg, ratio=self.ratio, etype="lf"\n            )\n\n            self._split2shanks(chunk_lf2save, etype="lf")\n', '        for chunk_ap, chunk_sync in self._windows(wg, offset):\n            chunk_lf2save = self._ind2save(\n                self.extract_lfp(chunk_ap), self.extract_lfp_sync(chunk_sync), wg, ratio=self.ratio, etype="lf"\n            )\n            self._split2shanks(chunk_lf2save, etype="lf")\n'), ('    def _process_NP21(self', '    def _windows(self, wg, offset=0):\n        for first, last in wg.firstlast:\n            yield self.sr[first + offset:last + offset, : self.napch].T, self.sr[first + offset:last + offset, self.idxsyncch:].T\n\n    def _process_NP21(self')], (),
+      "windows produced by a helper generator that yields inside its own iteration of firstlast"),
     V("sync-stride-off", "fire", NP, [("        chunk_sync = chunk_sync[:, :: self.ratio]\n", "        chunk_sync = chunk_sync[:, :: self.ratio + 1]\n")], ("D2",), ""),
     V("sync-phase-1", "fire", NP, [("        chunk_sync = chunk_sync[:, :: self.ratio]\n", "        chunk_sync = chunk_sync[:, 1:: self.ratio]\n")], ("D2",), ""),
     V("fs-lf-3000", "fire", NP, [("        self.fs_lf = 2500\n", "        self.fs_lf = 3000\n")], ("D3", "D1"), ""),
